@@ -249,6 +249,18 @@ def transcript_spec(draw, max_exons=5, coding=None, max_len=10, zero_gap_cds=Tru
             k = draw(st.integers(0, len(cds_blocks) - 1))
             frames[k] = (frames[k] + draw(st.sampled_from([1, 2]))) % 3
             fs = True
+        if overlapped:
+            def _ok():
+                return rm.order_representable(rm.cleaned_blocks(cds_blocks, strand, frames)) and rm.codons_representable(rm.frame_walk(cds_blocks, strand, frames)[0], strand)
+            if not _ok():
+                # trimming inside the overlap / a codon straddling it can be unrepresentable as a Location (C01 F1/F25): keep one
+                # uninterrupted frame, and if that does not help drop the overlap
+                offset, fs = 0, False
+                frames = rm.frames_from_offset(cds_blocks, strand, 0)
+                if not _ok():
+                    cds_blocks = [[b[0], min(b[1], cds_blocks[k + 1][0])] if k + 1 < len(cds_blocks) else b for k, b in enumerate(cds_blocks)]
+                    frames = rm.frames_from_offset(cds_blocks, strand, 0)
+                    overlapped = False
         sp.update({"cds": cds_blocks, "frames": frames, "offset": offset, "frameshift": fs, "cds_i": i, "cds_j": j})
         if gapped:
             sp["cds_gapped"] = True
